@@ -349,15 +349,14 @@ where
     fn eq(&self, other: &Self) -> bool {
         self.version == other.version
             && self.status == other.status
-            && self.headers.iter().zip(other.headers.iter()).all(
-                |((lhs_name, lhs_values), (rhs_name, rhs_values))| {
-                    lhs_name == rhs_name
-                        && lhs_values
-                            .iter()
-                            .zip(rhs_values.iter())
-                            .all(|(lhs, rhs)| lhs == rhs)
-                },
-            )
+            // the header maps iterate in arbitrary order: compare them name by name
+            && self.headers.iter().count() == other.headers.iter().count()
+            && self.headers.iter().all(|(name, values)| {
+                other
+                    .headers
+                    .get(name)
+                    .is_some_and(|other_values| values.iter().eq(other_values.iter()))
+            })
             && self.body == other.body
     }
 }
